@@ -95,3 +95,14 @@ Definition run_faulty (c : xcase) : string :=
       | Ok (ans, audits, _) => show_bool ans ++ " audits=" ++ show_nat (List.length audits)
       end
   end.
+
+(* C16: a sequence of inquiries against one store *)
+Record hcase : Type := {
+  h_ck : checker; h_table : list (pstr * rx); h_pols : list (option policy); h_inqs : list inquiry }.
+
+Definition run_history (c : hcase) : string :=
+  match all_some (h_pols c) with
+  | None => "UNMODELLED"
+  | Some ps =>
+      join "," (map (fun q => show_res show_bool (decide (fits (rxof_table (h_table c)) (h_ck c)) ps q)) (h_inqs c))
+  end.
